@@ -1,6 +1,9 @@
 """C06 - noise between values never changes them; --on-error policies"""
 from ..scen_readinput import read_input
+from ..scen_parser import tokenizer
 
 
 def run(ctx):
     read_input(ctx, ['read.ignore_silent', 'read.panic_fails', 'read.stdout_reports', 'read.stderr_reports', 'read.clean_no_report', 'read.one_context_per_value'])
+    n = 3 if ctx.quick else 4
+    tokenizer(ctx, n, ['tok.garbage', 'tok.value', 'tok.consumed', 'tok.end'], f'full alphabet n={n}: a garbage byte costs exactly one byte and one recoverable error, whatever follows')
